@@ -127,6 +127,14 @@ class C04(Check):
         ops = []
         if rng.random() < 0.12:
             calsim.make_scripted_convergence(cfg, rng)     # calibrate() may return early: the folder must hold the stopping batch
+        elif rng.random() < 0.15:
+            cfg["model"]["scale"] = rng.choice([1e-9, 1e-12, 1e-30])     # series far below any absolute tolerance
+            cfg["loss"] = {"cls": "minkowski", "opts": {}}
+        if rng.random() < 0.06:
+            # many parameters (column order of the stored parameters matters from the 11th on)
+            cfg["space"] = calsim.gen_space(rng, rng.randint(11, 13))
+            cfg["lineup"] = calsim.gen_lineup(rng, n=rng.randint(1, 3), kinds=["uniform", "halton", "rseq", "pso", "bestbatch"],
+                                              rl=cfg["scheduler"]["kind"] == "rl")
         if rng.random() < 0.15:
             ops.append(["checkpoint", "Z"])          # zero-row calibrator
         for _ in range(rng.randint(1, 4)):
